@@ -118,6 +118,12 @@ def run(ck):
     from props import common as _common
 
     _common.dispatch_infra(ck, "3")
+    # a failed insertion gives the rejected dispatcher back *outside* of the loop's borrows: if the slot held the last
+    # reference, clearing it under the source-list / poll borrow runs the user's Drop there (shared with C06.4)
+    from props import C06 as _C06
+
+    _common.import_results(ck, _C06, "4", "register_dispatcher", "1")
+    _common.import_results(ck, _C06, "4", "Async::new", "2")
 
     # ---- clause 4: Generic records poller/token only after success -----------------------------------------
     for q, callee in (("<Generic as EventSource>::register", "register"), ("<Generic as EventSource>::reregister", "reregister")):
